@@ -43,6 +43,7 @@ var tChain = ck.ChainCfg{Profile: "V1C1", SRIH: true, StateExchange: true, State
 
 // tSource is the shared source chain: encoded headers and their hashes by height.
 type tSource struct {
+	blocks [][]byte // encoded blocks (empty ones) of the same chain, for the sub-checks that follow it block by block
 	hdrs   [][]byte
 	hashes []util.Uint256
 	buildS float64
@@ -63,7 +64,7 @@ func trustedSource() (*tSource, error) {
 			return
 		}
 		defer b.Close()
-		s := &tSource{hdrs: make([][]byte, tSrcLen+1), hashes: make([]util.Uint256, tSrcLen+1)}
+		s := &tSource{hdrs: make([][]byte, tSrcLen+1), hashes: make([]util.Uint256, tSrcLen+1), blocks: make([][]byte, tSrcLen+1)}
 		enc := func(h *block.Header) error {
 			w := io.NewBufBinWriter()
 			h.EncodeBinary(w.BinWriter)
@@ -83,11 +84,12 @@ func trustedSource() (*tSource, error) {
 			return
 		}
 		for i := 1; i <= tSrcLen; i++ {
-			_, blk, err := b.BuildBlock(ck.BlockSpec{TimeD: 1000, Nonce: uint64(i)})
+			raw, blk, err := b.BuildBlock(ck.BlockSpec{TimeD: 1000, Nonce: uint64(i)})
 			if err != nil {
 				tSrcErr = fmt.Errorf("source block %d: %v", i, err)
 				return
 			}
+			s.blocks[i] = raw
 			if tSrcErr = enc(&blk.Header); tSrcErr != nil {
 				return
 			}
